@@ -168,7 +168,7 @@ func (flex *FlexEncoder03) encodeFlexFecPacket(fecPacketIndex uint32, mediaBaseS
 		// zero, not what the reused buffer held before.
 		clear(tmpMediaPacketBuf[:packetSize])
 
-		n, err := mediaPacket.MarshalTo(tmpMediaPacketBuf[:packetSize])
+		n, err := marshalMediaPacket(mediaPacket, tmpMediaPacketBuf[:packetSize])
 		if n == 0 || err != nil {
 			return rtp.Packet{}, false
 		}
@@ -244,4 +244,23 @@ func (flex *FlexEncoder03) encodeFlexFecPacket(fecPacketIndex uint32, mediaBaseS
 	flex.fecBaseSn++
 
 	return packet, true
+}
+
+// marshalMediaPacket writes the packet as it goes on the wire. Older versions of pion/rtp had no
+// PaddingSize field: callers set Header.Padding and carry the padding bytes at the end of the payload.
+// rtp.Packet.MarshalTo rejects that shape, but the packet is sent (header with the P bit, then the
+// payload) and has to be protected like any other.
+func marshalMediaPacket(mediaPacket *rtp.Packet, buf []byte) (int, error) {
+	paddingInPayload := mediaPacket.Header.Padding && mediaPacket.Header.PaddingSize == 0 &&
+		mediaPacket.PaddingSize == 0 //nolint:staticcheck // deprecated field, still honoured by MarshalTo
+	if paddingInPayload {
+		n, err := mediaPacket.Header.MarshalTo(buf)
+		if err != nil {
+			return 0, err
+		}
+
+		return n + copy(buf[n:], mediaPacket.Payload), nil
+	}
+
+	return mediaPacket.MarshalTo(buf)
 }
